@@ -5,7 +5,6 @@ package bag
 import (
 	"os"
 
-	"github.com/ohler55/ojg/sen"
 	"github.com/ohler55/slip"
 	"github.com/ohler55/slip/pkg/flavors"
 )
@@ -51,7 +50,7 @@ func (f *Load) Call(s *slip.Scope, args slip.List, depth int) (result slip.Objec
 	}
 	self := flavor.MakeInstance().(*flavors.Instance)
 	self.Init(s, slip.List{}, depth)
-	self.Any = sen.MustParse(contents)
+	self.Any = mustParseSEN(contents)
 
 	return self
 }
